@@ -34,6 +34,10 @@ impl Args {
 }
 
 fn run(sut: &dyn Sut, parse: &dyn Fn(&str) -> Option<Op>, a: &Args) -> i32 {
+    run_with(sut, parse, a, None)
+}
+
+fn run_with(sut: &dyn Sut, parse: &dyn Fn(&str) -> Option<Op>, a: &Args, cases: Option<Vec<(Vec<Op>, Vec<Op>)>>) -> i32 {
     let limits = Limits {
         max_states: a.num("max_states", 400_000),
         max_transitions: a.num("max_transitions", 6_000_000),
@@ -47,6 +51,7 @@ fn run(sut: &dyn Sut, parse: &dyn Fn(&str) -> Option<Op>, a: &Args) -> i32 {
     };
     let stats = match mode {
         "bfs" => bfs(sut, &mut *out, &limits),
+        "shapes" => multi_script(sut, &cases.expect("shapes mode is only available for trees"), &mut *out, &limits),
         "random" => random(
             sut,
             &mut *out,
@@ -88,7 +93,8 @@ fn tree_cmd<A: tree::TreeApi>(a: &Args) -> i32 {
         fill: a.num("fill", 1) == 1,
         _p: PhantomData,
     };
-    run(&sut, &|l| sut.parse(l), a)
+    let cases = if a.get("mode") == Some("shapes") { Some(sut.shape_cases(a.num("nodes", 8))) } else { None };
+    run_with(&sut, &|l| sut.parse(l), a, cases)
 }
 
 fn hset_cmd<A: hset::HApi>(a: &Args) -> i32 {
